@@ -505,16 +505,30 @@ fn expand_one_env(sh: &Shell, token: &str) -> Option<(String, String)> {
 // and restored at the end of do_expansion().
 const PROTECTED_DOLLAR: char = '\u{e000}';
 const PROTECTED_BACKQUOTE: char = '\u{e001}';
+const PROTECTED_QUOTE: char = '\u{e002}';
+const PROTECTED_BACKSLASH: char = '\u{e003}';
 
 fn protect_value(val: &str) -> String {
     val.replace("$(", &format!("{}(", PROTECTED_DOLLAR))
         .replace('`', &PROTECTED_BACKQUOTE.to_string())
 }
 
+/// The value of a positional parameter that is pasted between double quotes
+/// (`"$1"`): `$`, backquote, `"` and `\` in it are data as well.
+pub fn protect_quoted_value(val: &str) -> String {
+    val.replace('$', &PROTECTED_DOLLAR.to_string())
+        .replace('`', &PROTECTED_BACKQUOTE.to_string())
+        .replace('"', &PROTECTED_QUOTE.to_string())
+        .replace('\\', &PROTECTED_BACKSLASH.to_string())
+}
+
 fn restore_protected(tokens: &mut types::Tokens) {
     for t in tokens.iter_mut() {
-        if t.1.contains(PROTECTED_DOLLAR) || t.1.contains(PROTECTED_BACKQUOTE) {
-            t.1 = t.1.replace(PROTECTED_DOLLAR, "$").replace(PROTECTED_BACKQUOTE, "`");
+        if t.1.contains(|c| ('\u{e000}'..='\u{e003}').contains(&c)) {
+            t.1 = t.1.replace(PROTECTED_DOLLAR, "$")
+                .replace(PROTECTED_BACKQUOTE, "`")
+                .replace(PROTECTED_QUOTE, "\"")
+                .replace(PROTECTED_BACKSLASH, "\\");
         }
     }
 }
